@@ -481,6 +481,19 @@ func sameKey(a, b ssa.Value) bool {
 	if SameValue(a, b) {
 		return true
 	}
+	// the canonical spelling of a field name is the same field (Header.Add/Set/Get
+	// canonicalise too)
+	for _, v := range []*ssa.Value{&a, &b} {
+		if cl, ok := Peel(*v).(*ssa.Call); ok {
+			switch CalleeName(cl.Common()) {
+			case "net/http.CanonicalHeaderKey", "net/textproto.CanonicalMIMEHeaderKey":
+				*v = cl.Call.Args[0]
+			}
+		}
+	}
+	if SameValue(a, b) {
+		return true
+	}
 	if bo, ok := Peel(b).(*ssa.BinOp); ok {
 		if _, isC := ConstString(bo.X); isC && SameValue(a, bo.Y) {
 			return true
@@ -707,6 +720,21 @@ func knownGuard(cond ssa.Value, fn *ssa.Function) bool {
 		if e, ok := x.X.(*ssa.Extract); ok {
 			if _, ok := e.Tuple.(*ssa.Select); ok && e.Index == 0 {
 				return true
+			}
+		}
+		// emptiness test of the value list of the field being copied (len(vs) == 0): a field
+		// without values is not transmitted either way
+		for _, pair := range [][2]ssa.Value{{x.X, x.Y}, {x.Y, x.X}} {
+			if n, isC := ConstInt(pair[1]); isC && n == 0 {
+				if cl, isCall := pair[0].(*ssa.Call); isCall {
+					if b, isB := cl.Call.Value.(*ssa.Builtin); isB && b.Name() == "len" && len(cl.Call.Args) == 1 {
+						if e, isE := cl.Call.Args[0].(*ssa.Extract); isE && e.Index == 2 {
+							if _, isNext := e.Tuple.(*ssa.Next); isNext {
+								return true
+							}
+						}
+					}
+				}
 			}
 		}
 		// emptiness test of a string
